@@ -32,6 +32,16 @@ GCODES = ["G28", "G1 X1 Y1 Z0.2 F3000", "G1 X15 Y15", "G1 X15.5 Y16 E1", "G1 X30
           "M400", "G1 X12 Y12 F1200"]
 
 
+PAYLOADS = [
+    {"name": "a.gcode", "path": "a.gcode", "origin": "local", "size": 1234, "owner": "admin", "user": "admin"},
+    {"name": "a.gcode", "path": "a.gcode", "origin": "local", "size": 1234, "owner": "admin", "user": "admin"},
+    {"name": "b.gcode", "path": "sub/b.gcode", "origin": "local"},
+    {"name": "a.gco", "path": "a.gco", "origin": "sdcard", "size": 99},
+    {"name": "a.gcode", "path": "a.gcode", "origin": "local", "time": 12.5, "reason": "cancelled"},
+    None,
+]
+
+
 class Stepper(object):
     def __init__(self, case):
         self.h = Harness(case.get("config", {}))
@@ -73,7 +83,7 @@ class Stepper(object):
         if k == "event":
             name = op[1]
             was_active = self.active
-            h.event(name)
+            h.event(name, copy.deepcopy(op[2]) if len(op) > 2 else None)
             if name == "PRINT_STARTED":
                 self.active = True
             elif name in END_EVENTS:
@@ -193,6 +203,15 @@ def machine(tier, col):  # pylint: disable=unused-argument
               home=st.integers(0, 4))
         def event(self, name, home):
             self.do(["event", name])
+            if name == "PRINT_STARTED" and home:
+                self.do(["g", "G28"])
+                self.do(["g", "G1 X1 Y1 Z0.2 F3000"])
+
+        @rule(name=st.sampled_from(("PRINT_STARTED", "PRINT_STARTED", "FILE_SELECTED", "FILE_SELECTED") + END_EVENTS),
+              payload=st.sampled_from(PAYLOADS), home=st.integers(0, 4))
+        def event_with_payload(self, name, payload, home):
+            """The payload OctoPrint attaches (file name / path / origin ...): the lifecycle does not depend on it."""
+            self.do(["event", name, payload])
             if name == "PRINT_STARTED" and home:
                 self.do(["g", "G28"])
                 self.do(["g", "G1 X1 Y1 Z0.2 F3000"])
